@@ -640,6 +640,10 @@ class RunBundler:
             else:
                 del self._monitor_params[obj]
 
+    def forget_monitors(self):
+        """Drop the monitors without telling the devices (their callbacks ignore later updates)."""
+        self._monitor_params.clear()
+
     def reset_checkpoint_state(self):
         # Keep a safe separate copy of the sequence counters to use if we
         # rewind and retake some data points.
